@@ -149,7 +149,7 @@ def key_move(d):
     if d["ok"] == 1 and d.get("post_bad"):
         # TLC: the request was allowed, but the tip / height / remembered headers after it are not
         # those of the previous (rm) / new (add) block
-        return "C13a:%s:%s:accepted-but-wrong-tip" % (r["op"], ",".join(deviations(r)) or "none")
+        return "C13a:%s:accepted-but-wrong-tip" % r["op"]
     return "C13a:%s:%s:accepted" % (r["op"], ",".join(deviations(r)) or "none") if d["ok"] == 1 else \
         "C13a:%s:tip-moved-without-accept" % r["op"]
 
